@@ -10,6 +10,12 @@ pub struct SubjectDef {
     pub def: DefSpec,
     /// skip patterns carry a logging callback (observation of skipped regions, C03)
     pub skip_log: bool,
+    /// callbacks family: per leaf, whether the variant holds a value (skips: false)
+    #[serde(default)]
+    pub has_value: Vec<bool>,
+    /// callbacks family: an error callback is configured
+    #[serde(default)]
+    pub error_cb: bool,
 }
 
 #[derive(Clone, Debug, Serialize, Deserialize)]
@@ -21,28 +27,278 @@ pub struct SubjectSet {
 
 pub const SKIP_LOG_CB: &str = "|lex| { let sp = lex.span(); lex.extras.skips.push((sp.start, sp.end)); }";
 
+/// Outcome options per callback return type: list of outcome codes (0 Emit, 1 Skip, 2 DefaultErr, 3 CustomErr).
+pub fn ret_options(ret: u8) -> &'static [u8] {
+    match ret {
+        0 => &[0],
+        1 => &[0, 2],
+        2 => &[0, 3],
+        3 => &[1],
+        4 => &[1, 3],
+        5 => &[0, 1],
+        6 => &[0, 1, 3],
+        7 => &[0],
+        8 => &[0, 3],
+        9 => &[0, 1],
+        10 => &[0, 1, 3],
+        11 => &[0],
+        12 => &[0, 2],
+        13 => &[0, 3],
+        14 => &[0, 1],
+        15 => &[0, 1, 3],
+        16 => &[1],
+        17 => &[1],
+        18 => &[1, 3],
+        19 => &[1, 3],
+        _ => &[0],
+    }
+}
+
+/// returns the token itself (may emit another variant)
+pub fn ret_is_token(ret: u8) -> bool {
+    (7..=10).contains(&ret)
+}
+
+fn render_callback(leaf: usize, enum_name: &str, ret: u8, salt: u32, bump: u8, first_unit: Option<usize>, own_variant: Option<usize>) -> String {
+    let nopts = ret_options(ret).len();
+    // the variant a token-returning callback emits: the first unit variant of the enum (may differ from its own)
+    let tokv = first_unit.or(own_variant).unwrap_or(0);
+    let (ty, arms): (String, Vec<String>) = match ret {
+        0 => ("()".into(), vec!["()".into()]),
+        1 => ("bool".into(), vec!["true".into(), "false".into()]),
+        2 => ("Result<(), Ecb>".into(), vec!["Ok(())".into(), "Err(Ecb(v))".into()]),
+        3 => ("logos::Skip".into(), vec!["logos::Skip".into()]),
+        4 => ("Result<logos::Skip, Ecb>".into(), vec!["Ok(logos::Skip)".into(), "Err(Ecb(v))".into()]),
+        5 => ("logos::Filter<()>".into(), vec!["logos::Filter::Emit(())".into(), "logos::Filter::Skip".into()]),
+        6 => ("logos::FilterResult<(), Ecb>".into(), vec!["logos::FilterResult::Emit(())".into(), "logos::FilterResult::Skip".into(), "logos::FilterResult::Error(Ecb(v))".into()]),
+        7 => (enum_name.into(), vec![format!("{enum_name}::V{tokv}")]),
+        8 => (format!("Result<{enum_name}, Ecb>"), vec![format!("Ok({enum_name}::V{tokv})"), "Err(Ecb(v))".into()]),
+        9 => (format!("logos::Filter<{enum_name}>"), vec![format!("logos::Filter::Emit({enum_name}::V{tokv})"), "logos::Filter::Skip".into()]),
+        10 => (format!("logos::FilterResult<{enum_name}, Ecb>"), vec![format!("logos::FilterResult::Emit({enum_name}::V{tokv})"), "logos::FilterResult::Skip".into(), "logos::FilterResult::Error(Ecb(v))".into()]),
+        11 => ("u64".into(), vec!["v".into()]),
+        12 => ("Option<u64>".into(), vec!["Some(v)".into(), "None".into()]),
+        13 => ("Result<u64, Ecb>".into(), vec!["Ok(v)".into(), "Err(Ecb(v))".into()]),
+        14 => ("logos::Filter<u64>".into(), vec!["logos::Filter::Emit(v)".into(), "logos::Filter::Skip".into()]),
+        15 => ("logos::FilterResult<u64, Ecb>".into(), vec!["logos::FilterResult::Emit(v)".into(), "logos::FilterResult::Skip".into(), "logos::FilterResult::Error(Ecb(v))".into()]),
+        16 => ("()".into(), vec!["()".into()]),
+        17 => ("logos::Skip".into(), vec!["logos::Skip".into()]),
+        18 => ("Result<(), Ecb>".into(), vec!["Ok(())".into(), "Err(Ecb(v))".into()]),
+        _ => ("Result<logos::Skip, Ecb>".into(), vec!["Ok(logos::Skip)".into(), "Err(Ecb(v))".into()]),
+    };
+    let mut body = String::new();
+    for (i, a) in arms.iter().enumerate() {
+        if i + 1 == arms.len() {
+            body.push_str(&format!("_ => {a}, "));
+        } else {
+            body.push_str(&format!("{i} => {a}, "));
+        }
+    }
+    format!(
+        "    #[allow(unused_variables)]\n    fn cb{leaf}<'s>(lex: &mut logos::Lexer<'s, {enum_name}>) -> {ty} {{\n        let (c, v) = subject_rt::cb_common(lex, {leaf}, {salt}, {bump}, {nopts});\n        match c {{ {body}}}\n    }}\n"
+    )
+}
+
 /// Rust source of the module of one subject.
 pub fn render_module(idx: usize, sd: &SubjectDef) -> String {
+    if sd.family == "callbacks" {
+        return render_callback_module(idx, sd);
+    }
     let mut s = String::new();
     s.push_str(&format!("pub mod d{idx} {{\n    #![allow(dead_code, unused_imports)]\n    use logos::Logos;\n    use subject_rt::{{Log, Mode, Obs, Src, Subject, Tok}};\n\n"));
     let skip_log = sd.skip_log;
-    let body = sd.def.render_with(
-        "T",
-        "#[derive(Logos, Debug, Clone, Copy, PartialEq)]",
-        &["extras = Log".to_string()],
-        sd.def.utf8,
-        &|leaf, _p| if skip_log && leaf < sd.def.skips.len() { Some(SKIP_LOG_CB.to_string()) } else { None },
-    );
-    for line in body.lines() {
-        s.push_str("    ");
-        s.push_str(line);
-        s.push('\n');
+    let cb = |leaf: usize, _p: &crate::spec::PatSpec| if skip_log && leaf < sd.def.skips.len() { Some(SKIP_LOG_CB.to_string()) } else { None };
+    let mut enums = vec![("T", sd.def.utf8)];
+    if sd.def.utf8 {
+        // bytes-mode twin of a str-mode definition (C12)
+        enums.push(("T2", false));
     }
-    s.push_str("    impl Tok for T { fn id(&self) -> usize { *self as usize } }\n");
+    for (name, utf8) in &enums {
+        let body = sd.def.render_with(name, "#[derive(Logos, Debug, Clone, Copy, PartialEq)]", &["extras = Log".to_string()], *utf8, &cb);
+        for line in body.lines() {
+            s.push_str("    ");
+            s.push_str(line);
+            s.push('\n');
+        }
+        s.push_str(&format!("    impl Tok for {name} {{ fn id(&self) -> usize {{ *self as usize }} }}\n"));
+    }
     s.push_str("    pub struct S;\n    impl Subject for S {\n");
     s.push_str(&format!("        fn index(&self) -> usize {{ {idx} }}\n"));
     s.push_str("        fn lex(&self, which: u8, src: &[u8], mode: Mode) -> Obs {\n            match which {\n");
     s.push_str("                0 => subject_rt::lex_generic::<T>(<<T as Logos<'_>>::Source as Src>::from_bytes(src), mode),\n");
+    if sd.def.utf8 {
+        s.push_str("                1 => subject_rt::lex_generic::<T2>(<<T2 as Logos<'_>>::Source as Src>::from_bytes(src), mode),\n");
+    }
     s.push_str("                _ => unreachable!(),\n            }\n        }\n    }\n}\n");
     s
+}
+
+/// callbacks family: enum T with callbacks, twin T0 (callback-free, one unit variant per leaf,
+/// skips visible), optional T1 (always-Skip callbacks replaced by skip patterns).
+fn render_callback_module(idx: usize, sd: &SubjectDef) -> String {
+    let def = &sd.def;
+    let leaves = def.leaves();
+    let nskips = def.skips.len();
+    let mut s = String::new();
+    s.push_str(&format!("pub mod d{idx} {{\n    #![allow(dead_code, unused_imports)]\n    use logos::Logos;\n    use subject_rt::{{Ecb, Log, Mode, Obs, Src, Subject, Tok, E}};\n\n"));
+    let first_unit = (0..def.variants.len()).find(|&vi| !sd.has_value.get(nskips + vi).copied().unwrap_or(false));
+    for name in ["T", "T1"] {
+        for (leaf, (p, variant)) in leaves.iter().enumerate() {
+            if let Some(cb) = &p.callback {
+                let _ = variant;
+                s.push_str(&render_callback(leaf, name, cb.ret, cb.salt, cb.bump, first_unit, *variant).replace(&format!("fn cb{leaf}<"), &format!("fn {}cb{leaf}<", name.to_lowercase())));
+            }
+        }
+    }
+    let err_attr = if sd.error_cb {
+        "error(E, callback = |lex| { let sp = lex.span(); lex.extras.errs.push((sp.start, sp.end)); E(2_000_000 + (sp.start as u64) * 1000 + sp.end as u64) })".to_string()
+    } else {
+        "error = E".to_string()
+    };
+    // main enum T and T1
+    for name in ["T", "T1"] {
+        let lower = name.to_lowercase();
+        let mut body = String::new();
+        body.push_str("#[derive(Logos, Debug, Clone, Copy, PartialEq)]\n");
+        if !def.utf8 {
+            body.push_str("#[logos(utf8 = false)]\n");
+        }
+        body.push_str(&format!("#[logos(extras = Log)]\n#[logos({err_attr})]\n"));
+        let cbexpr = |leaf: usize, p: &crate::spec::PatSpec| -> Option<(String, u8)> {
+            p.callback.as_ref().map(|cb| {
+                let f = format!("{lower}cb{leaf}");
+                match cb.form {
+                    0 => (f, 0),
+                    1 => (format!("|lex| {f}(lex)"), 0),
+                    2 => (format!("callback = {f}"), 1),
+                    _ => (format!("callback = |lex| {f}(lex)"), 1),
+                }
+            })
+        };
+        // T1: unit-variant patterns whose callback always skips (ret 3, no bump) become skip patterns
+        let to_skip = |p: &crate::spec::PatSpec| name == "T1" && p.callback.as_ref().map(|c| c.ret == 3 && c.bump == 0).unwrap_or(false);
+        let render_args = |leaf: usize, p: &crate::spec::PatSpec, allow_cb: bool| -> String {
+            let mut a = String::new();
+            let cb = if allow_cb { cbexpr(leaf, p) } else { None };
+            if let Some((c, 0)) = &cb {
+                a.push_str(&format!(", {c}"));
+            }
+            if let Some(pr) = p.priority {
+                a.push_str(&format!(", priority = {pr}"));
+            }
+            if p.allow_greedy {
+                a.push_str(", allow_greedy = true");
+            }
+            if let Some((c, 1)) = &cb {
+                a.push_str(&format!(", {c}"));
+            }
+            if p.ignore_case {
+                a.push_str(", ignore(case)");
+            }
+            a
+        };
+        for (leaf, (p, variant)) in leaves.iter().enumerate() {
+            if variant.is_none() {
+                body.push_str(&format!("#[logos(skip({}{}))]\n", p.lit.rust(), render_args(leaf, p, true)));
+            } else if to_skip(p) {
+                // only sound for #[regex]; a #[token] literal is rendered as an escaped regex elsewhere - keep tokens as they are
+                if p.kind == crate::spec::PatKind::Regex {
+                    body.push_str(&format!("#[logos(skip({}{}))]\n", p.lit.rust(), render_args(leaf, p, false)));
+                }
+            }
+        }
+        body.push_str(&format!("pub enum {name} {{\n"));
+        for (leaf, (p, variant)) in leaves.iter().enumerate() {
+            let Some(vi) = variant else { continue };
+            let attr = if p.kind == crate::spec::PatKind::Token { "token" } else { "regex" };
+            let skipped = to_skip(p) && p.kind == crate::spec::PatKind::Regex;
+            if !skipped {
+                body.push_str(&format!("    #[{attr}({}{})]\n", p.lit.rust(), render_args(leaf, p, true)));
+            }
+            if sd.has_value.get(leaf).copied().unwrap_or(false) {
+                body.push_str(&format!("    V{vi}(u64),\n"));
+            } else {
+                body.push_str(&format!("    V{vi},\n"));
+            }
+        }
+        body.push_str("}\n");
+        for line in body.lines() {
+            s.push_str("    ");
+            s.push_str(line);
+            s.push('\n');
+        }
+        s.push_str(&format!("    impl Tok for {name} {{\n        fn id(&self) -> usize {{ match self {{"));
+        for (leaf, (_, variant)) in leaves.iter().enumerate() {
+            if let Some(vi) = variant {
+                if sd.has_value.get(leaf).copied().unwrap_or(false) {
+                    s.push_str(&format!(" {name}::V{vi}(_) => {vi},"));
+                } else {
+                    s.push_str(&format!(" {name}::V{vi} => {vi},"));
+                }
+            }
+        }
+        s.push_str(" } }\n        fn val(&self) -> u64 { match self {");
+        for (leaf, (_, variant)) in leaves.iter().enumerate() {
+            if let Some(vi) = variant {
+                if sd.has_value.get(leaf).copied().unwrap_or(false) {
+                    s.push_str(&format!(" {name}::V{vi}(x) => *x,"));
+                }
+            }
+        }
+        s.push_str(" _ => 0 } }\n    }\n");
+    }
+    // twin T0: every leaf a unit variant, same priorities, no callbacks
+    {
+        let mut body = String::new();
+        body.push_str("#[derive(Logos, Debug, Clone, Copy, PartialEq)]\n");
+        if !def.utf8 {
+            body.push_str("#[logos(utf8 = false)]\n");
+        }
+        body.push_str("#[logos(extras = Log)]\npub enum T0 {\n");
+        for (leaf, (p, variant)) in leaves.iter().enumerate() {
+            let attr = if p.kind == crate::spec::PatKind::Token && variant.is_some() { "token" } else { "regex" };
+            body.push_str(&format!("    #[{attr}({}{})]\n    P{leaf},\n", p.lit.rust(), p.args()));
+        }
+        body.push_str("}\n");
+        for line in body.lines() {
+            s.push_str("    ");
+            s.push_str(line);
+            s.push('\n');
+        }
+        s.push_str("    impl Tok for T0 { fn id(&self) -> usize { *self as usize } }\n");
+    }
+    s.push_str("    pub struct S;\n    impl Subject for S {\n");
+    s.push_str(&format!("        fn index(&self) -> usize {{ {idx} }}\n"));
+    s.push_str("        fn lex(&self, which: u8, src: &[u8], mode: Mode) -> Obs {\n            match which {\n");
+    s.push_str("                0 => subject_rt::lex_generic::<T>(<<T as Logos<'_>>::Source as Src>::from_bytes(src), mode),\n");
+    s.push_str("                1 => subject_rt::lex_generic::<T0>(<<T0 as Logos<'_>>::Source as Src>::from_bytes(src), mode),\n");
+    s.push_str("                2 => subject_rt::lex_generic::<T1>(<<T1 as Logos<'_>>::Source as Src>::from_bytes(src), mode),\n");
+    s.push_str("                _ => unreachable!(),\n            }\n        }\n    }\n}\n");
+    s
+}
+
+/// Pure decision function shared by the generated callbacks and the C13 model.
+pub fn decide(salt: u32, slice: &[u8]) -> u64 {
+    (crate::fnv(slice) ^ (salt as u64).wrapping_mul(0x9E3779B97F4A7C15)) % 251
+}
+
+/// value a callback attaches to a value variant / a custom error
+pub fn cb_value(slice: &[u8]) -> u64 {
+    crate::fnv(slice) & 0xffff
+}
+
+/// number of bytes of `rem` covered by `k` whole chars (str) or `k` bytes (byte mode)
+pub fn bump_bytes(rem: &[u8], k: u8, is_str: bool) -> usize {
+    if !is_str {
+        return (k as usize).min(rem.len());
+    }
+    let mut n = 0;
+    for _ in 0..k {
+        if n >= rem.len() {
+            break;
+        }
+        let b = rem[n];
+        let w = if b < 0x80 { 1 } else if b >= 0xF0 { 4 } else if b >= 0xE0 { 3 } else { 2 };
+        n = (n + w).min(rem.len());
+    }
+    n
 }
